@@ -85,6 +85,7 @@ func (c *ctx) close() {
 
 // emit writes the event to the next shard in round-robin order.
 func (c *ctx) emit(v interface{}) {
+	progress() // an event written is progress too: only a call that does not come back counts as a hang
 	c.mu.Lock()
 	s := c.rr % c.shards
 	c.rr++
